@@ -106,6 +106,7 @@ fn main() {
         "rooms" => rooms::run(arg(&args, "--seed", 1u64), arg(&args, "--count", 200usize), shards, &outdir),
         "probe" => cli::probe(&args),
         "cderead" => cli::cderead(&args),
+        "simpleread" => cli::simpleread(&args),
         other => {
             eprintln!("unknown subcommand {}", other);
             std::process::exit(2);
